@@ -76,6 +76,7 @@ impl<W: Write> zipcrypto::ZipCryptoWriter<W> {
 //@|     dev_ok(&self.writer),
 //@| ensures:
 //@|     r matches Ok(w) ==> dev_step(&self.writer, &w),
+//@|     r matches Ok(w) ==> wr_n(&self.writer, &w, true, zc_enc(self.keys@, self.buffer@.update(11, (crc32 >> 24) as u8))),
 //@end
 }
 //@item src/write.rs | struct ZipRawValues
